@@ -70,7 +70,7 @@ func (w recWRF) ReadFrom(src io.Reader) (int64, error) {
 // 0..7 SetStatus(code) ; h SetHeader ; e Write("") ; w Write("ab") ; f Flush ; E http.Error(418) ; R Redirect(302) ; T Text(201,"hi") ; S Stream(203, reader without WriteTo)
 var c08Status = map[byte]int{'0': -1, '1': 0, '2': 200, '3': 304, '4': 201, '5': 404, '6': 500, '7': 204, '8': 103, '9': 100}
 
-const c08Ops = "0123456789hewfERTS"
+const c08Ops = "0123456789hewfERTStWI"
 
 func c08Apply(c *rux.Context, op byte) {
 	switch op {
@@ -88,6 +88,12 @@ func c08Apply(c *rux.Context, op byte) {
 		c.Redirect("/to", 302)
 	case 'T':
 		c.Text(201, "hi")
+	case 't':
+		c.Text(200, "ok")
+	case 'W':
+		c.WriteString("ab")
+	case 'I':
+		_, _ = io.WriteString(c.Resp, "ab")
 	case 'S':
 		c.Stream(203, "x/stream", struct{ io.Reader }{strings.NewReader("str")})
 	default:
@@ -186,6 +192,19 @@ func (m *c08Model) apply(op byte) {
 		if m.write("hi") {
 			m.panicked = true
 		}
+	case 't':
+		// a helper given status 200 - the writer's own default - still replaces a status selected earlier
+		m.ctSet = true
+		m.setStatus(200)
+		if m.write("ok") {
+			m.panicked = true
+		}
+	case 'W':
+		if m.write("ab") {
+			m.panicked = true
+		}
+	case 'I':
+		m.write("ab")
 	default:
 		m.setStatus(c08Status[op])
 	}
@@ -329,7 +348,7 @@ func c08Check(h *c08Harness, run c08Run_, st *fw.Stats) *fw.Viol {
 	}
 	w, length, status, sampled, pv := h.exec(&run)
 	desc := func() string {
-		return fmt.Sprintf("ops %q (middleware before Next: %q, main handler: %q, middleware after Next: %q), write answers %v [0-9=SetStatus(-1,0,200,304,201,404,500,204,103,100) h=SetHeader e=Write(\"\") w=Write(\"ab\") f=Flush E=http.Error(418) R=Redirect(302) T=Text(201) S=Stream(203)]",
+		return fmt.Sprintf("ops %q (middleware before Next: %q, main handler: %q, middleware after Next: %q), write answers %v [0-9=SetStatus(-1,0,200,304,201,404,500,204,103,100) h=SetHeader e=Write(\"\") w=Write(\"ab\") f=Flush E=http.Error(418) R=Redirect(302) T=Text(201) t=Text(200) W=c.WriteString I=io.WriteString(c.Resp) S=Stream(203)]",
 			run.Ops, run.Ops[:run.I], run.Ops[run.I:run.J]+map[bool]string{true: " then HandleContext to a route writing \"cd\"", false: ""}[run.Redisp], c08Tail(run), fmtAnswers(run.Answers))
 	}
 	if pv != nil && !m.panicked {
@@ -573,7 +592,7 @@ func c08RunCase(c c08Case, st *fw.Stats) []fw.Viol {
 				m.apply(ops[k])
 			}
 			nw := m.nWrites
-			if strings.ContainsAny(ops, "ewfERT") {
+			if strings.ContainsAny(ops, "ewfERTtWI") {
 				st.Nontrivial++
 			}
 			for _, sp := range splits {
@@ -663,7 +682,7 @@ func c08Gen(tier string, emit func(c08Case)) {
 var c08Spec = fw.Spec[c08Case]{
 	ID:    "C08",
 	Level: "model_checking",
-	Rule: "depth-bounded exhaustive search: ALL operation sequences of length <=4 (thorough 6) over 18 operations {SetStatus(-1,0,200,304,201,404,500,204,103,100), SetHeader, Write(\"\"), Write(\"ab\"), Flush, http.Error(418), Redirect(302), Text(201), Stream(203)} x every split of the sequence over middleware-before-Next / main handler / middleware-after-Next (also with the tail run by the OnError hook, with a HandleContext re-dispatch, right after a request that hijacked its connection, and on an underlying writer implementing io.ReaderFrom) x every assignment of <=2 non-default answers (short write, error) to the underlying writes (every split up to length 3 (4), 4 representative splits plus OnError / re-dispatch / ReaderFrom variants at length 4 (5), <=1 fault at length 6 in the thorough tier); " +
+	Rule: "depth-bounded exhaustive search: ALL operation sequences of length <=4 (thorough 6) over 21 operations {SetStatus(-1,0,200,304,201,404,500,204,103,100), SetHeader, Write(\"\"), Write(\"ab\"), Flush, http.Error(418), Redirect(302), Text(201), Text(200), Context.WriteString, io.WriteString(c.Resp), Stream(203)} x every split of the sequence over middleware-before-Next / main handler / middleware-after-Next (also with the tail run by the OnError hook, with a HandleContext re-dispatch, right after a request that hijacked its connection, and on an underlying writer implementing io.ReaderFrom) x every assignment of <=2 non-default answers (short write, error) to the underlying writes (every split up to length 3 (4), 4 representative splits plus OnError / re-dispatch / ReaderFrom variants at length 4 (5), <=1 fault at length 6 in the thorough tier); " +
 		"plus the requests the router answers by itself (default and silent custom 404 / 405 responders, the body-less OPTIONS reply, do-nothing handlers) on all 384 combinations of 9 router settings; " +
 		"oracle = 20-line writer specification compared with the complete event log of a recording ResponseWriter+Flusher; non-trivial = sequence containing a write, flush or helper",
 	Assume: []string{"Text (WriteBytes) is documented to panic when the underlying write fails; after such a panic only the log so far is compared", "Length() is compared once a header was committed"},
